@@ -369,9 +369,9 @@ int main(int argc, char** argv) {
   const bool quick = R.quick();
   ta::ledger().live.reserve(1 << 14);
 #if defined(__SANITIZE_ADDRESS__)
-  const unsigned depth = quick ? 4 : 5;
+  const unsigned depth = quick ? 5 : 6;
 #else
-  const unsigned depth = quick ? 4 : 5;
+  const unsigned depth = quick ? 5 : 6;
 #endif
   hb::Explorer<DocSim> ex(R, "K_two_docs",
                           "BFS over histories of two documents with a ledger-tracking freeing allocator: menu of " + std::to_string(OP_COUNT) +
